@@ -72,3 +72,35 @@ Proof.
             match goal with |- context [if ?b then _ else _] => destruct b eqn:? end);
     reflexivity.
 Qed.
+
+(* ---- transfer: the model's invariants, stated about the functions translated from the current source ----------------- *)
+From PV Require Import Proofs.PowerProofs.
+
+(* whatever the durations: after the translated power_on / power_off / reset / tick (their events applied to the node's
+   interfaces, services and applications) a node that is not ON has every interface disabled (Inv1) and a node that is OFF
+   runs no service and has no application open (Inv2), provided that held before *)
+Theorem source_power_off_keeps_invariants : forall c n, Inv1 n -> Inv2 n ->
+  let '(_, (evs, s, r, u, d)) := Node_power_off (down_d c) [] (ps_to_Z (st n)) (resetting n) (up_d c) (up_cd n) (down_cd n) in
+  Inv1 (with_scalars (fold_left ev_apply evs n) s u d r) /\ Inv2 (with_scalars (fold_left ev_apply evs n) s u d r).
+Proof.
+  intros c n H1 H2. pose proof (gen_power_off c n) as G.
+  destruct (Node_power_off (down_d c) [] (ps_to_Z (st n)) (resetting n) (up_d c) (up_cd n) (down_cd n)) as [ret [[[[evs s] r] u] d]].
+  rewrite <- G. split; [apply inv1_power_off|apply inv2_power_off]; assumption.
+Qed.
+Theorem source_power_on_keeps_invariants : forall c n, Inv1 n -> Inv2 n ->
+  let '(_, (s, evs, u)) := Node_power_on (up_d c) (ps_to_Z (st n)) [] (up_cd n) in
+  Inv1 (with_scalars (fold_left ev_apply evs n) s u (down_cd n) (resetting n)) /\
+  Inv2 (with_scalars (fold_left ev_apply evs n) s u (down_cd n) (resetting n)).
+Proof.
+  intros c n H1 H2. pose proof (gen_power_on c n) as G.
+  destruct (Node_power_on (up_d c) (ps_to_Z (st n)) [] (up_cd n)) as [ret [[s evs] u]].
+  rewrite <- G. split; [apply inv1_power_on|apply inv2_power_on]; assumption.
+Qed.
+Theorem source_tick_keeps_invariants : forall c n, Inv1 n -> Inv2 n ->
+  let '(_, (u, s, evs, d, r)) := Node_apply_timestep_power (up_cd n) (down_cd n) (ps_to_Z (st n)) [] (resetting n) (up_d c) in
+  Inv1 (with_scalars (fold_left ev_apply evs n) s u d r) /\ Inv2 (with_scalars (fold_left ev_apply evs n) s u d r).
+Proof.
+  intros c n H1 H2. pose proof (gen_tick c n) as G.
+  destruct (Node_apply_timestep_power (up_cd n) (down_cd n) (ps_to_Z (st n)) [] (resetting n) (up_d c)) as [ret [[[[u s] evs] d] r]].
+  rewrite <- G. split; [apply inv1_tick|apply inv2_tick]; assumption.
+Qed.
